@@ -52,39 +52,66 @@ func RuleE2E3(c *Ctx) {
 			continue
 		}
 		c.Saw(core.FnName(fn))
+		// the per-element work may live in a closure of the function (e.g. a loop body handed to a helper)
+		top := fn
+		for _, f := range core.Family(top) {
+			if len(callsTo(f, gfr, "Element", "LexicographicallyLargest")) > 0 {
+				fn = f
+				break
+			}
+		}
 		lls := callsTo(fn, gfr, "Element", "LexicographicallyLargest")
 		encs := callsTo(fn, gfr, "Element", "Bytes")
 		negs := callsTo(fn, gfr, "Element", "Neg")
 		key := name + ":negate-iff-not-largest"
-		if len(lls) != 1 || len(encs) != 1 || len(negs) != 1 {
-			c.Bad("E2", key, fn.Pos(), fmt.Sprintf("expected one LexicographicallyLargest test, one Neg and one Bytes encoding; found %d, %d, %d", len(lls), len(negs), len(encs)))
+		if len(lls) != 1 || len(encs) == 0 || len(negs) == 0 {
+			c.Bad("E2", key, fn.Pos(), fmt.Sprintf("expected one LexicographicallyLargest test and at least one Neg and one Bytes encoding; found %d, %d, %d", len(lls), len(negs), len(encs)))
 			continue
 		}
-		ll, enc, neg := lls[0], encs[0], negs[0]
+		ll, enc := lls[0], encs[0]
 		ok := true
 		var why []string
-		// Neg only when not largest
-		if fromWithin(fn, ll, boolEdges(fn, ll, false), neg) {
-			ok = false
-			why = append(why, "x can be negated although y is the lexicographically largest root")
+		for _, neg := range negs {
+			// Neg only when not largest
+			if fromWithin(fn, ll, boolEdges(fn, ll, false), neg) {
+				ok = false
+				why = append(why, "x can be negated although y is the lexicographically largest root")
+			}
+			// never negated twice for one sign test
+			for _, neg2 := range negs {
+				cut := core.NewCuts()
+				cut.AddInstr(ll)
+				if core.ReachableAvoiding(fn, neg, cut, neg2) {
+					ok = false
+					why = append(why, "x can be negated twice after one sign test")
+				}
+			}
+			// same x: Neg(x, x) and Bytes(x)
+			if !(neg.Call.Args[0] == neg.Call.Args[1] && enc.Call.Args[0] == neg.Call.Args[0]) {
+				ok = false
+				why = append(why, "the value that is negated is not the x that is encoded")
+			}
 		}
-		// when not largest, Neg always happens before the encoding
-		cut := boolEdges(fn, ll, true)
-		cut.AddInstr(neg)
-		if fromWithin(fn, ll, cut, enc) {
-			ok = false
-			why = append(why, "x can be encoded un-negated although y is not the lexicographically largest root")
+		for _, e := range encs {
+			// when not largest, Neg always happens before the encoding
+			cut := boolEdges(fn, ll, true)
+			for _, neg := range negs {
+				cut.AddInstr(neg)
+			}
+			if fromWithin(fn, ll, cut, e) {
+				ok = false
+				why = append(why, "x can be encoded un-negated although y is not the lexicographically largest root")
+			}
+			if e.Call.Args[0] != enc.Call.Args[0] {
+				ok = false
+				why = append(why, "the encodings do not all serialise the same x")
+			}
+			if !core.Precedes(fn, ll, e) {
+				ok = false
+				why = append(why, "an encoding can be reached without the sign test")
+			}
 		}
-		// same x: Neg(x, x) and Bytes(x)
-		if !(neg.Call.Args[0] == neg.Call.Args[1] && enc.Call.Args[0] == neg.Call.Args[0]) {
-			ok = false
-			why = append(why, "the value that is negated is not the x that is encoded")
-		}
-		if !core.CanReach(fn, ll, enc) {
-			ok = false
-			why = append(why, "the sign test does not precede the encoding")
-		}
-		c.Check(ok, "E2", key, ll.Pos(), strings.Join(why, "; "), "Neg(x) exactly on the not-largest edge, before x.Bytes()")
+		c.Check(ok, "E2", key, ll.Pos(), strings.Join(uniqStrings(why), "; "), "Neg(x) exactly on the not-largest edge, before x.Bytes()")
 		xCell, yCell := enc.Call.Args[0], ll.Call.Args[0]
 		// E3
 		key3 := name + ":affine-coordinates"
@@ -106,10 +133,10 @@ func RuleE2E3(c *Ctx) {
 				// on the Z != 1 edge both coordinates are overwritten from the FromProj result before use
 				for _, cell := range []struct {
 					cell  ssa.Value
-					use   ssa.Instruction
+					uses  []*ssa.Call
 					field int
 					nm    string
-				}{{xCell, enc, 0, "x"}, {yCell, ll, 1, "y"}} {
+				}{{xCell, encs, 0, "x"}, {yCell, lls, 1, "y"}} {
 					var from ssa.Instruction
 					for _, st := range allStoresTo(fn, cell.cell) {
 						if u, isLoad := st.Val.(*ssa.UnOp); isLoad && u.Op == token.MUL {
@@ -125,9 +152,11 @@ func RuleE2E3(c *Ctx) {
 					}
 					cut := boolEdges(fn, one, true)
 					cut.AddInstr(from)
-					if fromWithin(fn, one, cut, cell.use) {
-						ok3 = false
-						why3 = append(why3, "the projective "+cell.nm+" can be serialised although Z != 1")
+					for _, use := range cell.uses {
+						if fromWithin(fn, one, cut, use) {
+							ok3 = false
+							why3 = append(why3, "the projective "+cell.nm+" can be serialised although Z != 1")
+						}
 					}
 				}
 			} else {
@@ -135,10 +164,22 @@ func RuleE2E3(c *Ctx) {
 			}
 			c.Check(ok3, "E3", key3, fn.Pos(), strings.Join(why3, "; "), "raw X,Y only when Z.IsOne(); otherwise taken from FromProj(p.inner)")
 		} else {
-			ok3, why3 := c.batchAffine(fn, xCell, yCell, "Z")
+			ok3, why3 := c.batchAffine(fn, top, xCell, yCell, "Z")
 			c.Check(ok3, "E3", key3, fn.Pos(), why3, "X = elem.X * zInv[i], Y = elem.Y * zInv[i], zInvs = BatchInvert(zs), zs[i] = elem.Z")
 		}
 	}
+}
+
+func uniqStrings(in []string) []string {
+	seen := map[string]bool{}
+	var out []string
+	for _, s := range in {
+		if !seen[s] {
+			seen[s] = true
+			out = append(out, s)
+		}
+	}
+	return out
 }
 
 func allStoresTo(fn *ssa.Function, cell ssa.Value) []*ssa.Store {
@@ -153,7 +194,32 @@ func allStoresTo(fn *ssa.Function, cell ssa.Value) []*ssa.Store {
 
 // batchAffine: X (resp. Y) cell is written by Mul(cell, &elem.inner.X (resp .Y), &inv[i]) where inv = fp.BatchInvert(src),
 // and src[i] was stored from elements[i].inner.<invField>.
-func (c *Ctx) batchAffine(fn *ssa.Function, xCell, yCell ssa.Value, invField string) (bool, string) {
+// unCapture looks through a variable cell (a captured variable seen from a closure, or a local that is captured elsewhere)
+// to the single value stored into it.
+func unCapture(v ssa.Value) ssa.Value {
+	for d := 0; d < 4; d++ {
+		u, ok := v.(*ssa.UnOp)
+		if !ok || u.Op != token.MUL {
+			return v
+		}
+		cell := u.X
+		if fv, isFV := cell.(*ssa.FreeVar); isFV {
+			cell = core.FreeVarBinding(fv)
+		}
+		al, isAl := cell.(*ssa.Alloc)
+		if !isAl {
+			return v
+		}
+		sts := storesInto(al)
+		if len(sts) != 1 {
+			return v
+		}
+		v = sts[0].Val
+	}
+	return v
+}
+
+func (c *Ctx) batchAffine(fn, top *ssa.Function, xCell, yCell ssa.Value, invField string) (bool, string) {
 	muls := callsTo(fn, gfr, "Element", "Mul")
 	var invs ssa.Value
 	for _, spec := range []struct {
@@ -179,10 +245,11 @@ func (c *Ctx) batchAffine(fn *ssa.Function, xCell, yCell ssa.Value, invField str
 			if !isIA {
 				return false, "the inverse is not taken from the batch-inverted slice"
 			}
-			if invs != nil && invs != ia.X {
+			sl := unCapture(ia.X)
+			if invs != nil && invs != sl {
 				return false, "X and Y are scaled by inverses from different slices"
 			}
-			invs = ia.X
+			invs = sl
 			found = true
 		}
 		if !found {
@@ -194,17 +261,19 @@ func (c *Ctx) batchAffine(fn *ssa.Function, xCell, yCell ssa.Value, invField str
 		return false, "the inverses do not come from fp.BatchInvert"
 	}
 	// source slice filled from the elements' invField
-	src := bi.Call.Args[0]
+	src := unCapture(bi.Call.Args[0])
 	okSrc := false
-	core.AllInstrs(fn, func(i ssa.Instruction) {
-		if st, ok := i.(*ssa.Store); ok {
-			if ia, ok := st.Addr.(*ssa.IndexAddr); ok && ia.X == src {
-				if strings.HasSuffix(core.PathOf(st.Val), ".inner."+invField+")") {
-					okSrc = true
+	for _, f := range core.Family(top) {
+		core.AllInstrs(f, func(i ssa.Instruction) {
+			if st, ok := i.(*ssa.Store); ok {
+				if ia, ok := st.Addr.(*ssa.IndexAddr); ok && unCapture(ia.X) == src {
+					if strings.HasSuffix(core.PathOf(st.Val), ".inner."+invField+")") {
+						okSrc = true
+					}
 				}
 			}
-		}
-	})
+		})
+	}
 	if !okSrc {
 		return false, "the inverted values are not the elements' " + invField + " coordinates"
 	}
@@ -494,7 +563,7 @@ func RuleN1N2(c *Ctx) {
 	for _, call := range callsTo(batch, gfr, "Element", "Mul") {
 		mapped = call.Call.Args[0]
 	}
-	okB, whyB := c.batchAffine(batch, mapped, nil, "Y")
+	okB, whyB := c.batchAffine(batch, batch, mapped, nil, "Y")
 	c.Check(mapped != nil && okB, "N1", "BatchMapToScalarField:X*Yinv", batch.Pos(), "the batch map-to-field is not X times the inverse of the same element's Y: "+whyB, "mapped = elem.X * BatchInvert(ys)[i], ys[i] = elem.Y")
 	// N2 conversion pair
 	conv := func(fn *ssa.Function) string {
